@@ -18,7 +18,7 @@ def _run(pid, prop, tier, seed, coop_cases, free_cases, rule, assumptions):
     # systematic: every schedule with at most `preempt` preemptions, depth-first by prefix replay, per scenario / shape; the counters say
     # for which of them the tree was exhausted and for which it was cut at the budget
     pre = 2 if tier == "quick" else 3
-    resd = vlib.run_resumable(cbin, ["--prop", prop, "--mode", "dfs", "--seed", str(seed), "--cases", str(6000 if tier == "quick" else 1500000), "--preempt", str(pre)], 15 if pid == "C12" else 8,
+    resd = vlib.run_resumable(cbin, ["--prop", prop, "--mode", "dfs", "--seed", str(seed), "--cases", str(6000 if tier == "quick" else 1500000), "--preempt", str(pre)], 17 if pid == "C12" else 8,
                               timeout=400 if tier == "quick" else 7200, work=work, tag="d")
     cd, dd, sd, std_ = vlib.collect_runs(v, resd)
     distinct |= dd
@@ -56,7 +56,7 @@ def _run(pid, prop, tier, seed, coop_cases, free_cases, rule, assumptions):
 
 def run_c12(tier, seed, replay=None):
     return _run("C12", "c12", tier, seed, 1500 if tier == "quick" else 150000, 6000 if tier == "quick" else 600000,
-                "14 scenarios (resolve|then, reject|then, resolve(parent)|then(derived), ...|then(derived).then, inner promise settled by a third thread, reject(parent)|then(derived) with rethrow, two attachers, void promise, and one per continuation specialisation that settles a derived promise: void parent with value-returning continuation, void parent with promise-returning continuation, inner promise already fulfilled, rejection of a void parent, inner promise rejected by a third thread, and a promise with 2 or 4 continuations attached beforehand that gets one more while it is being fulfilled) x seeded schedules of the cooperative scheduler (uniform random walk and PCT with 1-3 change points) switching at the async.h hooks and at modelled lock acquire/release; per-continuation counters and values judged at the end of every schedule; plus free-running rounds under ThreadSanitizer with random spins at the hooks. distinct = distinct (scenario, schedule trace) hashes",
+                "16 scenarios (resolve|then, reject|then, resolve(parent)|then(derived), ...|then(derived).then, inner promise settled by a third thread, reject(parent)|then(derived) with rethrow, two attachers, void promise, and one per continuation specialisation that settles a derived promise: void parent with value-returning continuation, void parent with promise-returning continuation, inner promise already fulfilled, rejection of a void parent, inner promise rejected by a third thread, a promise with 2 or 4 continuations attached beforehand that gets one more while it is being fulfilled, and an attaching thread whose own wrong-typed settle attempt has just been refused) x seeded schedules of the cooperative scheduler (uniform random walk and PCT with 1-3 change points) switching at the async.h hooks and at modelled lock acquire/release; per-continuation counters and values judged at the end of every schedule; plus free-running rounds under ThreadSanitizer with random spins at the hooks. distinct = distinct (scenario, schedule trace) hashes",
                 ["schedules are sampled; in addition every schedule with at most 2 (thorough: 3) preemptions is enumerated per scenario where the budget allows (evidence: systematic.exhausted / cut_at_budget); the scheduler only switches at hooks (sequentially consistent interleavings of hooked steps)",
                  "TSan reports without a Pistache frame are not judged"])
 
